@@ -81,6 +81,8 @@ def to_model(t, raw_versions=None):
     if t in ('T', 'F'):
         return t
     tag = t[0]
+    if tag == 'BIG':
+        raise Unmodelled('the unfolded diagram has more than 40 000 nodes')
     if tag in ('V', 'S'):
         k = [('ver' if tag == 'V' else 'str'), t[1]]
         edges = t[2]
